@@ -37,6 +37,9 @@ type l2Node struct {
 	Cond  int  `json:"cond"` // 0 ok, 1 NetworkUnavailable, 2 exclude label, 3 both
 	Sel   int  `json:"sel"`  // 0 not selected, 1 selected by adv1, 2 by adv2, 3 by both
 	EP    int  `json:"ep"`   // 0 none, 1 ready=true, 2 ready=nil, 3 ready=false serving=true, 4 ready=false serving=false, 5 ready=false serving=nil, 6 terminating but serving, 7 two pods on the node: stopped then ready, 8 ready then stopped
+	// Spelling: 0 default; 1 the NetworkUnavailable condition of an available node has status Unknown; 2 it is absent;
+	// 3 the exclude label (when present) has the value "false" (the label excludes whatever its value)
+	Spelling int `json:"spelling,omitempty"`
 }
 
 type l2View struct {
@@ -132,10 +135,20 @@ func (v *l2View) build() (*config.Pool, map[string]*v1.Node, []discovery.Endpoin
 			if n.Cond&1 != 0 {
 				node.Status.Conditions = append(node.Status.Conditions, v1.NodeCondition{Type: v1.NodeNetworkUnavailable, Status: v1.ConditionTrue})
 			} else {
-				node.Status.Conditions = append(node.Status.Conditions, v1.NodeCondition{Type: v1.NodeNetworkUnavailable, Status: v1.ConditionFalse})
+				switch n.Spelling {
+				case 1:
+					node.Status.Conditions = append(node.Status.Conditions, v1.NodeCondition{Type: v1.NodeNetworkUnavailable, Status: v1.ConditionUnknown})
+				case 2:
+					node.Status.Conditions = append(node.Status.Conditions, v1.NodeCondition{Type: v1.NodeReady, Status: v1.ConditionUnknown})
+				default:
+					node.Status.Conditions = append(node.Status.Conditions, v1.NodeCondition{Type: v1.NodeNetworkUnavailable, Status: v1.ConditionFalse})
+				}
 			}
 			if n.Cond&2 != 0 {
 				node.Labels[v1.LabelNodeExcludeBalancers] = ""
+				if n.Spelling == 3 {
+					node.Labels[v1.LabelNodeExcludeBalancers] = "false"
+				}
 			}
 			nodes[name] = node
 		}
@@ -361,7 +374,7 @@ func TestVerif_C04(t *testing.T) {
 				for _, cond := range []int{0, 1, 2} {
 					for _, sel := range sels {
 						for _, ep := range eps {
-							out = append(out, l2Node{alive, known, cond, sel, ep})
+							out = append(out, l2Node{alive, known, cond, sel, ep, 0})
 						}
 					}
 				}
@@ -419,10 +432,19 @@ func TestVerif_C04(t *testing.T) {
 	nodeStates = nil
 	for _, sel := range []int{0, 1} {
 		for _, ep := range []int{0, 1, 4, 6, 7, 8} {
-			nodeStates = append(nodeStates, l2Node{true, true, 0, sel, ep})
+			nodeStates = append(nodeStates, l2Node{true, true, 0, sel, ep, 0})
 		}
 	}
 	res.Info["node_states_endpoint_product"] = len(nodeStates)
+	rec(nil)
+	// spelling product: how "available" and "excluded" are written on the Node object
+	nodeStates = nil
+	for _, cond := range []int{0, 2} {
+		for _, sp := range []int{0, 1, 2, 3} {
+			nodeStates = append(nodeStates, l2Node{Alive: true, Known: true, Cond: cond, Sel: 1, EP: 1, Spelling: sp})
+		}
+	}
+	res.Info["node_states_spelling_product"] = len(nodeStates)
 	rec(nil)
 	if thorough {
 		nodeStates = mkStates([]int{0, 1, 2, 3}, []int{0, 1, 2, 3, 4, 5})
@@ -437,7 +459,7 @@ func TestVerif_C04(t *testing.T) {
 		}
 		nodes := make([]l2Node, n)
 		for i := range nodes {
-			nodes[i] = l2Node{true, true, 0, 1, 1}
+			nodes[i] = l2Node{true, true, 0, 1, 1, 0}
 		}
 		for _, local := range []bool{false, true} {
 			for _, ss := range svcSets {
@@ -500,9 +522,9 @@ func (f *l2Fixture) winner(set []string, addrs []string, svcName string, local b
 	v := &l2View{Local: local, Slices: 1}
 	for _, n := range l2NodeNames {
 		if in[n] {
-			v.Nodes = append(v.Nodes, l2Node{true, true, 0, 1, 1})
+			v.Nodes = append(v.Nodes, l2Node{true, true, 0, 1, 1, 0})
 		} else {
-			v.Nodes = append(v.Nodes, l2Node{false, true, 0, 1, 1}) // known, selected, has an endpoint, but no live speaker
+			v.Nodes = append(v.Nodes, l2Node{false, true, 0, 1, 1, 0}) // known, selected, has an endpoint, but no live speaker
 		}
 	}
 	return f.announcers(v, svcName, addrs, order)
